@@ -71,8 +71,8 @@ CLAIMED = {
  'C14': dict(
    text="Theorems: accepted decodes are admissible architectures; the reference enumeration is exactly the admissible assignments; "
         "every admissible assignment is reachable by a legal greedy run. The fast encoder is decoded over its whole declared space "
-        "and the image compared with enum_adm; corrected vectors must be fixed points. The order in which the fast encoder tries vectors is modelled (Neighborhood.v): exactly the space left by the fixed variables, every vector once, the requested one first; the search returns a feasible vector whenever that space holds one; FastHierarchyAnalyzer._iter_neighborhood is compared with the extracted neighborhood.",
-   note=BASE + "F5 (zero selection choices) fixed by 305cac2. Known findings K7, K8.",
+        "and the image compared with enum_adm; corrected vectors must be fixed points. The order in which the fast encoder tries vectors is modelled (Neighborhood.v): exactly the space left by the fixed variables, every vector once, the requested one first; the search returns a feasible vector whenever that space holds one; FastHierarchyAnalyzer._iter_neighborhood is compared with the extracted neighborhood. Greedy.v models the whole decode of the fast encoder as a function of graph, vector and fixed flags (greedy application in decision-id order, options doomed by incompatibilities, options removed by choice constraints, neighbourhood search, fixed-value check): proved to return only admissible architectures (Adm) reached from a vector of the request's neighbourhood and to return a valid request unchanged; the implementation's corrected vector, activeness and instance are compared '=' with it on every generated graph outside the known-finding classes.",
+   note=BASE + "F5 (zero selection choices) fixed by 305cac2, F34 (nested derivation loops) by 9b86f5c. Known findings K7, K8; the exact decode model leaves out connection choices and the K2/K7/K8/K9/K11 mechanisms.",
    technique="Coq theorems about an extracted Gallina model + differential correspondence with the implementation", design="§6 C14"),
  'C17': dict(
    text="Theorems: Obj only with a direction and a sound permanence flag, Con only with direction and reference, declared NONE is "
@@ -98,8 +98,8 @@ CLAIMED = {
         "free equals the decode of a fresh processor with the same fixed mask; with copy-on-return every decode hands out a "
         "pristine instance whatever was stored on earlier ones; both are refuted (vm_compute witnesses) for the code as found "
         "(in-place and; cached object returned). Random operation histories on one long-lived processor are compared step by "
-        "step with freshly built processors.",
-   note=BASE + "The oracle of the history runs is the implementation itself (metamorphic); the choice-function hypothesis on the implementation's correction search is assumed, not proved; other-process/hash-seed runs belong to C18. F2, F3 fixed by b7e31b6, e876f05.",
+        "step with freshly built processors; for the fast encoder every decode of a history (also under fixed values) is in addition compared '=' with the extracted Greedy.fast_decode; absolute checks (range, canonical inactive entries, fixed option present); processors over 1-3 connection choices are compared row by row with a fresh processor.",
+   note=BASE + "The oracle of the complete encoder's history runs is the implementation itself (metamorphic); the choice-function hypothesis on the implementation's correction search is assumed, not proved; other-process/hash-seed runs belong to C18. F2, F3, F11, F15, F20 fixed by b7e31b6, e876f05, 9b483be, 82c0c26, 30ede4f.",
    technique="Coq theorems about an extracted Gallina model + differential correspondence with the implementation", design="§6 C05"),
  'C15': dict(
    text="Theorems: restrict_rows yields only original rows (column removed) with the fixed value there (or inactive, for a "
@@ -107,8 +107,8 @@ CLAIMED = {
         "counts accordingly; decodes under a fixed mask return rows the mask allows; after any fix/free/decode history a decode "
         "equals that of a fresh processor with the same fixed mask (free restores); refuted for the in-place mask of the code as "
         "found. get_all_discrete_x under fixed values is compared with the extracted restrict_rows applied to the unfixed "
-        "enumeration; counts, des_vars, decodes with a fresh processor; out-of-range values must be rejected.",
-   note=BASE + "An empty restricted space may fail explicitly (RuntimeError). F2 fixed by b7e31b6.",
+        "enumeration; counts, des_vars, decodes with a fresh processor; out-of-range values must be rejected. Fast encoder under fixed values: Greedy.fast_decode keeps the fixed entries and passes respects_fixed (a fixed choice is never silently given another option; refuted for the code as found before 30ede4f), compared '=' with the implementation.",
+   note=BASE + "An empty restricted space may fail explicitly (RuntimeError). F2 fixed by b7e31b6, F20 by 30ede4f.",
    technique="Coq theorems about an extracted Gallina model + differential correspondence with the implementation", design="§6 C15"),
  'C10': dict(
    text="Theorems: a decode table accepted by the extracted checker coding_ok consists of valid matrices (ValidM) with corrected "
@@ -142,8 +142,8 @@ CLAIMED = {
         "otherwise; on return the worker is finished or dead, also when the function swallows the injected exception once; a "
         "returned call is final; the outcomes consistent with measured timing are the set `allowed`. Real run_timeout calls with "
         "sleeping, busy, raising, swallowing, natively blocking, nested and back-to-back programs are compared with `allowed`, "
-        "plus: nothing still running, no foreign exception in the caller, later calls unaffected.",
-   note=BASE + "Partial: GIL scheduling, async-exception delivery latency and native blocking are runtime behaviour outside the LTS; timing is compared with a jitter tolerance and re-tried twice.",
+        "plus: nothing still running, no foreign exception in the caller, later calls unaffected. Nested limits (an outer limit around a call that sets its own) have their own transition system: for every schedule nothing is running once the caller has its answer (refuted for the limiter as found before 7b08eac), tied to real nested runs; the function's own exception object must come back (also TimeoutError, SystemExit, ...); an interrupt thrown into a cached iteration must not change later results.",
+   note=BASE + "F23-F25 (interrupt class, own exceptions, nested limits) fixed by 960afd7, 7c20c98, 7b08eac. Partial: GIL scheduling, async-exception delivery latency and native blocking are runtime behaviour outside the LTS; timing is compared with a jitter tolerance and re-tried twice.",
    technique="Coq theorems about an extracted Gallina model + differential correspondence with the implementation", design="§6 C19"),
  'C18': dict(
    text="Theorems: structural equality (sorted start nodes, node identities, edge multiset, constraint identities) holds between a "
